@@ -81,8 +81,15 @@ def run(ctx):
             if len(pre) == 1 and len(rec) == 1:
                 a0, a1 = ctx.expr(c, pre[0][1]["args"][0]), ctx.expr(c, pre[0][1]["args"][1])
                 r0 = ctx.expr(c, rec[0][1]["args"][0])
-                okc = a0 == "a2" and "clone(locations)" in a1.replace("self.0", "locations") and r0.startswith("darling_core::error::Error::prepend_at(a2")
-                detail = "prepend_at(%s, %s); into_vec(%s)" % (a0, a1, r0[:80])
+                # the value handed to the recursive call derives from the prepend_at result
+                # (possibly through further `error = error.with_…(..)` steps)
+                from .C01 import _sources
+                s_, _ = ctx.sym(c)
+                pdest = pre[0][1]["dest"]["local"]
+                srcs = _sources(c, s_, s_.operand(rec[0][1]["args"][0]))
+                derives = r0.startswith("darling_core::error::Error::prepend_at(a2") or pdest in srcs
+                okc = a0 == "a2" and "clone(locations)" in a1.replace("self.0", "locations") and derives and c.dominates(pre[0][0], rec[0][0])
+                detail = "prepend_at(%s, %s); into_vec(%s) derives from prepend_at: %s" % (a0, a1, r0[:80], derives)
         ctx.ob("C04.into_vec.child-gets-ancestor-path", f.key, "closure: prepend_at(child, bundle locations) then recurse", okc, detail)
     f = ctx.fn(E + "flatten")
     if f:
